@@ -31,6 +31,16 @@ Inductive input :=
        + http.Redirect (absolute redirect URIs only) *)
 | IErr (redirect : string) (parsed : option purl) (rtype rmode : string)
        (etype desc state session_state : string) (redirect_disabled : bool)
+| IFlow (redirect : string) (parsed : option purl) (rtype rmode : string)
+        (state session_state : string)
+    (* the success path end to end over HTTP on either router: GET /authorize
+       (client sends state, response_type, response_mode) -> login ->
+       GET /authorize/callback.  The credentials the provider mints are random;
+       the driver checks each one against the provider (the code decrypts to this
+       request's id, the id_token carries this request's nonce and subject, the
+       access token opens for the subject) and then writes it as "CODE" / "IDT" /
+       "AT"; a value that fails the check stays as it is.  token_type,
+       expires_in, scope and the raw Location / body are projected away. *)
 | IAfter (prev : input) (accepted : N) (i : input).
     (* a sequence on one process: first the call [prev] answered into an
        http.ResponseWriter that takes only [accepted] bytes of body and then
@@ -108,6 +118,21 @@ Definition form_obs (redirect : string) (params : pairs) : observed :=
         (attr_inert (form_action redirect)
          && forallb (fun n => attr_inert (attr_escape (value_of n params))) (present_fields params)).
 
+(* upstream of the response builders: which parameters the response object
+   carries per response type (AuthResponse -> AuthResponseCode's struct, or
+   CreateTokenResponse with code = "": tokens + state); the access token only
+   for "id_token token" *)
+Definition flow_response (rtype state ss : string) : response :=
+  if String.eqb rtype "code" then RCode "CODE" state ss
+  else RToken (if String.eqb rtype "id_token" then "" else "AT") "" "" 0 "IDT" state [].
+
+Definition blank_raw (o : observed) : observed :=
+  match o with
+  | OUrl _ base q f pre => OUrl "" base q f pre
+  | OForm _ action fields clean => OForm "" action fields clean
+  | _ => o
+  end.
+
 (* every answer is a function of its own request only *)
 Fixpoint strip (i : input) : input :=
   match i with
@@ -130,6 +155,15 @@ Definition model_base (i : input) : observed :=
                url_obs u (hex_escape_non_ascii
                             (auth_response_url u rtype rmode (encode_response (RCode code st ss))))
            end
+  | IFlow redirect parsed rtype rmode st ss =>
+      let r := flow_response rtype st ss in
+      blank_raw
+        (if String.eqb rmode "form_post" then form_obs redirect (encode_response r)
+         else match parsed with
+              | None => OFail
+              | Some u => url_obs u (hex_escape_non_ascii
+                                       (auth_response_url u rtype rmode (encode_response r)))
+              end)
   | IErr redirect parsed rtype rmode etype desc st ss disabled =>
       if String.eqb redirect "" || disabled then OFail
       else match parsed with
@@ -223,9 +257,25 @@ Definition form_spec (redirect : string) (want : pairs) (o : observed) : bool :=
   | _ => false
   end.
 
+(* what an authorization response carries (OIDC Core 3.1.2.5, 3.2.2.5): the code
+   flow a code, the implicit flows an id_token and - for "id_token token" - an
+   access token; always the state the client sent, and the session state *)
+Definition flow_produced (rtype state ss : string) : pairs :=
+  if String.eqb rtype "code"
+  then [("code", "CODE")] ++ opt_field "state" state ++ opt_field "session_state" ss
+  else (if String.eqb rtype "id_token token" then [("access_token", "AT")] else [])
+       ++ [("id_token", "IDT")] ++ opt_field "state" state.
+
 Definition spec_base (i : input) (o : observed) : bool :=
   match i with
   | IAfter _ _ _ => false
+  | IFlow redirect parsed rtype rmode st ss =>
+      if String.eqb rmode "form_post" then form_spec redirect (flow_produced rtype st ss) o
+      else match parsed with
+           | None => match o with OFail => true | _ => false end
+           | Some u => url_spec true (u_prefix u) (expected_channel rtype rmode)
+                                (flow_produced rtype st ss) o
+           end
   | IUrl _ None _ _ _ => match o with OFail => true | _ => false end
   | IUrl _ (Some u) rtype rmode r =>
       url_spec false (u_prefix u) (expected_channel rtype rmode) (produced r) o
@@ -282,6 +332,12 @@ Definition is_error (r : response) : bool := match r with RError _ _ _ _ => true
 Definition wf_base (i : input) : bool :=
   match i with
   | IAfter _ _ _ => false
+  | IFlow redirect parsed rtype rmode _ ss =>
+      (* the registered response types; session state belongs to the code response *)
+      (String.eqb rtype "code"
+       || ((String.eqb rtype "id_token token" || String.eqb rtype "id_token") && String.eqb ss ""))
+      && (if String.eqb rmode "form_post" then is_safe_url redirect && url_clean redirect
+          else match parsed with None => true | Some u => url_wf_redirect u end)
   | IUrl _ None _ _ _ => true
   | IUrl _ (Some u) _ _ _ => url_wf u
   | IForm redirect r => is_safe_url redirect && url_clean redirect && negb (is_error r)
@@ -312,6 +368,11 @@ Definition path_base (i : input) (o : observed) : nat :=
       if is_safe_url redirect then (if url_clean redirect then 9 else 10) else 11
   | ICode redirect _ _ _ _ _ _, OForm _ _ _ _ =>
       if is_safe_url redirect then (if url_clean redirect then 16 else 17) else 18
+  | IFlow _ _ rtype rmode _ _, OUrl _ _ _ _ pre =>
+      (match expected_channel rtype rmode with ChQuery => 20 | ChFragment => 22 end)
+      + (if String.eqb rtype "code" then 0 else 1)
+  | IFlow _ _ rtype _ _ _, OForm _ _ _ _ =>
+      if String.eqb rtype "code" then 24 else 25
   | _, _ => 19
   end.
 
